@@ -8,9 +8,9 @@ CONSTANTS
   Region = "EU868"
   MaxJoins = 2
   MaxDown = 1
-  DlSet = {0, 18, 127, 8}
+  DlSet = {0, 18, 127}
   DelSet = {0, 1, 15}
-  CfKinds = {"none", "t0ok", "t0mixed", "rfu"}
+  CfKinds = {"none", "t0mixed", "rfu"}
 VIEW JView
 INVARIANTS Emit
 CHECK_DEADLOCK FALSE
